@@ -5,7 +5,7 @@ from harness.common import *
 SPEC = {
     'technique': 'symbolic execution of icao.significant_cloud on lists of unbounded symbolic ints; '
                  'z3 fold of the 1-3-5 rule as oracle; per-path unsat',
-    'bounds': {'quick': 'all integer lists of length 0..8 (values unbounded)',
+    'bounds': {'quick': 'all integer lists of length 0..8 and of length 13 (values unbounded)',
                'thorough': 'all integer lists of length 0..13 (values unbounded)'},
     'outside': 'lists longer than the bound; non-integer okta values',
     'no_validation': True,
@@ -60,7 +60,7 @@ def k_icao(E, N):
 
 
 HARNESSES = [
-    H('K-icao', k_icao, quick=[(n,) for n in range(0, 9)], thorough=[(n,) for n in range(0, 14)],
+    H('K-icao', k_icao, quick=[(n,) for n in range(0, 9)] + [(13,)], thorough=[(n,) for n in range(0, 14)],
       cover=['layer 0 flagged', 'some later layer flagged', 'three flags then a denser layer refused'],
       doc='real icao.significant_cloud on N unbounded symbolic ints vs the z3 fold of the statement; '
           'prefix independence and repeatability as 2-run clauses'),
